@@ -52,9 +52,10 @@ type envEntry struct {
 }
 
 type preSnap struct {
-	heap   map[string]Term
-	params map[string]Value
-	nEvent int
+	heap       map[string]Term
+	params     map[string]Value
+	addrParams map[string]PtrV
+	nEvent     int
 }
 
 type State struct {
